@@ -341,6 +341,21 @@ func runKeys(w *World, p map[string]int, prop string) {
 				break
 			}
 			other := insts[t.Int(len(insts))]
+			if prev := other.Wallets[ws.ID]; prev != nil && prop == "C05" && !prev.Removing && t.Bool(50) {
+				// importing a keystore that is already there (also into the
+				// exporting instance itself): the refusal must not carry secrets
+				_, err := other.ImportKeystore(ws, js, true)
+				other.Wallets[ws.ID] = prev
+				if err != nil {
+					for _, k2 := range kws {
+						if !checkOutput("the error of a refused re-import of a keystore ("+err.Error()+")", err.Error(), k2, "") {
+							break
+						}
+					}
+					w.Stat("check.duplicate_import_refused")
+				}
+				break
+			}
 			if other == inst || other.Wallets[ws.ID] != nil {
 				break
 			}
@@ -359,7 +374,24 @@ func runKeys(w *World, p map[string]int, prop string) {
 			verifyKeys(other, nw)
 		case 4: // import mnemonic into another instance
 			other := insts[t.Int(len(insts))]
-			if other.Wallets[kw.ws.ID] != nil {
+			if prev := other.Wallets[kw.ws.ID]; prev != nil {
+				// already there: in half of the cases the import is attempted all
+				// the same; whatever the refusal says, it must not carry secrets
+				// (of this wallet or of any other)
+				if prop != "C05" || prev.Removing || !t.Bool(50) {
+					break
+				}
+				src := longest(kw, insts)
+				_, err := other.ImportMnemonicIdx(src, uint32(len(src.Issued)), uint32(t.Int(3)), true)
+				other.Wallets[kw.ws.ID] = prev
+				if err != nil {
+					for _, k2 := range kws {
+						if !checkOutput("the error of a refused re-import by mnemonic ("+err.Error()+")", err.Error(), k2, "") {
+							break
+						}
+					}
+					w.Stat("check.duplicate_import_refused")
+				}
 				break
 			}
 			src := longest(kw, insts)
